@@ -246,6 +246,7 @@ def run(ctx):
                                 '(%d of %d entries) and without discarding the recording: an incomplete recording would be '
                                 'saved unflagged' % (stores, expected),
                                 witness=d2.path_to(n, s), entry=cl.qualname, exit=ek))
+    _ci.import_clauses(ctx, res, 'C03', ['C03.k'], 'C05', 'C05.n', 'R-DOM', 'ordinals are drawn for captured output calls only (recording and replay count alike)', floor=1)
     return res
 
 
